@@ -183,6 +183,13 @@ impl Group for Framing {
             // HEAD length = GET length for the same request headers (when both were answered normally)
             let key = k.trim_start_matches("head").to_owned();
             let key = if key.is_empty() { "get".to_owned() } else if key == "gz" { "getgz".into() } else { key };
+            if r.status == 429 {
+                // the rate-limit page is the same for everybody: HEAD must declare what GET declares (either order)
+                let slot = if head { "429-head" } else { "429-get" };
+                let other = if head { "429-get" } else { "429-head" };
+                if let (Some(o), Some(c)) = (last_get_len.get(other), cl_val) { if *o != c { problems.push(format!("request {i} ({k}): 429 content-length {c} for {} but {o} for {}", if head { "HEAD" } else { "GET" }, if head { "GET" } else { "HEAD" })); } }
+                if let Some(c) = cl_val { last_get_len.insert(slot.to_owned(), c); }
+            }
             if r.status != 429 {
                 if head {
                     if let (Some(g), Some(h)) = (last_get_len.get(&key), cl_val) { if *g != h { problems.push(format!("request {i} ({k}): HEAD content-length {h} but GET had {g}")); } }
